@@ -692,7 +692,7 @@ def pool_specs(pid, tier):
 def run_history(pid, tier, seed):
     run = Run(pid, tier, seed, "HISTORY-MC")
     specs = seeded_order(pool_specs(pid, tier), seed)
-    cap = 2000 if tier == "quick" else 60000
+    cap = 2000 if tier == "quick" else 20000
     check_c10 = pid == "C10"
 
     def worker(chunk):
